@@ -418,3 +418,247 @@ def _factories(vc):
     vc.ensure("mode-flags", (meta_arg, keep_arg) == exp)
     vc.ensure("c20/file-left-open-only-by-open()", st.ghost["reader"].closed == (0 if vc.variant == "open" else 1),
               kind="resource")
+
+
+# ---------------------------------------------------------------------------- file-level chunk stream, ANY number of chunks
+
+import z3
+from collections import defaultdict
+from pyvc.interp import SymSeq, LoopSpec
+from pyvc.sym import _lift, SymBool
+
+
+def _setup_stream_all(interp):
+    CA = z3.Function("CUTA", z3.IntSort(), z3.IntSort())
+    CB = z3.Function("CUTB", z3.IntSort(), z3.IntSort())
+    LA = z3.Function("LENA", z3.IntSort(), z3.IntSort())
+    LB = z3.Function("LENB", z3.IntSort(), z3.IntSort())
+    PB = z3.Function("HASB", z3.IntSort(), z3.BoolSort())
+    pa, pb = path_of("g", "a"), path_of("g", "b")
+
+    def facts(st, k):
+        kz = sym.z3int(k)
+        st.add_fact(z3.And(LA(kz) >= 0, LB(kz) >= 0, CA(kz + 1) == CA(kz) + LA(kz),
+                           CB(kz + 1) == CB(kz) + z3.If(PB(kz), LB(kz), 0)))
+
+    def read_raw_data(interp_, f, args, kwargs):
+        """contract of TdmsReader.read_raw_data (harness seg_read_raw_data): K raw chunks; chunk k holds LENA(k)
+        values of channel a starting at its running count, and LENB(k) values of channel b if b is present in it"""
+        st = sym.get_state()
+        K = st.fresh_int("K")
+        st.assume(K >= 0)
+        st.ghost["K"] = K
+        st.add_fact(z3.And(CA(0) == 0, CB(0) == 0))
+        RD = interp_.get("base_segment.RawDataChunk")
+        RC = interp_.get("base_segment.RawChannelDataChunk")
+
+        def item(k):
+            facts(st, k)
+            kz = sym.z3int(k)
+            cd = {}
+            a = Obj(RC)
+            a._f.update(data=Window(_lift(CA(kz)), _lift(CA(kz + 1)), "a"), scaler_data=None)
+            cd[pa] = a
+            if interp_.truth(_lift(PB(kz))):
+                b = Obj(RC)
+                b._f.update(data=Window(_lift(CB(kz)), _lift(CB(kz)) + _lift(LB(kz)), "b"), scaler_data=None)
+                cd[pb] = b
+            ch = Obj(RD)
+            ch._f.update(channel_data=cd)
+            return ch
+        return SymSeq(K, item, "raw chunks")
+    interp.contracts_at_calls["nptdms.reader:TdmsReader.read_raw_data"] = read_raw_data
+    interp.contracts_at_calls["nptdms.tdms:_convert_data_chunk"] = \
+        lambda i, f, a, k: sym.get_state().check("call/chunk-converted-with-the-file's-timestamp-mode",
+                                                 a[1] is sym.get_state().ghost["raw_ts"], kind="call-pre") and None
+
+    def inv(env, k, st):
+        offs = env.vars["channel_offsets"]
+        kz = sym.z3int(k)
+        facts(st, k)
+        return [("offset-of-a-is-the-values-of-a-delivered", offs.get(pa, 0) == _lift(CA(kz))),
+                ("offset-of-b-is-the-values-of-b-delivered", offs.get(pb, 0) == _lift(CB(kz))),
+                ("offsets-only-for-the-file's-channels", all(p in (pa, pb) for p in offs.keys()))]
+
+    def havoc_offsets(st, env):
+        d = defaultdict(int)
+        d[pa] = st.fresh_int("offa")
+        d[pb] = st.fresh_int("offb")
+        return d
+    interp.loop_specs[("nptdms.tdms:TdmsFile.data_chunks", 0)] = LoopSpec(
+        inv, havoc={"channel_offsets": havoc_offsets, "__locals__": ("chunk", "path", "data")}, name="chunks")
+
+    def on_yield(qual, value, env):
+        if qual != "nptdms.tdms:TdmsFile.data_chunks":
+            return
+        st = sym.get_state()
+        k = env.vars["__k__"]
+        kz = sym.z3int(k)
+        ca = value._groups["g"]._channels["a"]
+        cb = value._groups["g"]._channels["b"]
+        st.check("yield/a/offset-is-values-delivered-so-far", ca.offset == _lift(CA(kz)), kind="yield")
+        st.check("yield/b/offset-is-values-delivered-so-far", cb.offset == _lift(CB(kz)), kind="yield")
+        st.check("yield/a/length", interp.models[len](interp, ca) == _lift(LA(kz)), kind="yield")
+        st.check("yield/b/length(0 when b is absent from the chunk)",
+                 interp.models[len](interp, cb) == _lift(z3.If(PB(kz), LB(kz), 0)), kind="yield")
+    interp.yield_hook = on_yield
+
+
+@harness("file_data_chunks_all", ["tdms.TdmsFile.data_chunks", "tdms.DataChunk.__init__", "tdms.GroupDataChunk.__init__",
+                                  "tdms.ChannelDataChunk.__init__", "base_segment.RawChannelDataChunk.__len__",
+                                  "base_segment.RawChannelDataChunk.empty"],
+         ["C03", "C05"], setup=_setup_stream_all,
+         note="for ANY number of chunks (1 group / 2 channels, one of them absent from arbitrary chunks): every "
+              "DataChunk carries, per channel, offset = values delivered before it (loop invariant on "
+              "channel_offsets) and the raw chunk's length; obligations at the yield")
+def _file_data_chunks_all(vc):
+    st = vc.st
+    OP = vc.interp.get("common.ObjectPath")
+    raw_ts = vc.bool("raw_ts")
+    st.ghost["raw_ts"] = raw_ts
+    tf = vc.new("tdms.TdmsFile", _memmap_dir=None, _raw_timestamps=raw_ts, _groups=OrderedDict(),
+                _properties=OrderedDict(), _channel_data={}, _tdms_version=0, data_read=False)
+    chans = [vc.new("tdms.TdmsChannel", _path=vc.interp.instantiate(OP, ["g", c], {}), _length=0, data_type=None,
+                    _raw_data=None) for c in ("a", "b")]
+    tf._groups["g"] = vc.new("tdms.TdmsGroup", _path=vc.interp.instantiate(OP, ["g"], {}),
+                             _channels={"a": chans[0], "b": chans[1]})
+    tf._reader = vc.new("reader.TdmsReader", _file=SFile("d"))
+    g = vc.call_method(tf, "data_chunks")
+    out = vc.drain(g.value)
+    vc.ensure("no-exception", out.kind == "ret")
+
+
+# ---------------------------------------------------------------------------- eager data read, ANY number of chunks
+
+class FillRecv(object):
+    """receiver (contract of NumpyDataReceiver / DaqmxDataReceiver.append*, harnesses numpy_receiver_append,
+    read_channel_data_all_chunks): holds values[0:filled] of its channel; an append must continue that prefix"""
+    _absent = ()
+
+    def __init__(self, path, capacity):
+        self.path = path
+        self.capacity = capacity
+        self.filled = 0
+        self.sfilled = {0: 0, 1: 0}
+
+    def append_data(self, w):
+        st = sym.get_state()
+        st.check("receiver/append-continues-the-channel(%s)" % self.path,
+                 isinstance(w, Window) and And(w.lo == self.filled, w.lo <= w.hi), kind="call-pre")
+        self.filled = w.hi
+
+    def append_scaler_data(self, sid, w):
+        st = sym.get_state()
+        st.check("receiver/scaler-append-continues-the-scaler's-data(%s)" % self.path,
+                 isinstance(w, Window) and sid in self.sfilled and
+                 And(w.lo == self.sfilled[sid], w.lo <= w.hi, w.tag == "scaler%d" % sid), kind="call-pre")
+        self.sfilled[sid] = w.hi
+
+
+def _setup_read_data_all(interp):
+    CA = z3.Function("EAGER_CUTA", z3.IntSort(), z3.IntSort())
+    CD = z3.Function("EAGER_CUTD", z3.IntSort(), z3.IntSort())
+    PA = z3.Function("EAGER_HASA", z3.IntSort(), z3.BoolSort())
+    pa, pd = path_of("g", "a"), path_of("h", "d")
+
+    def facts(st, k):
+        kz = sym.z3int(k)
+        st.add_fact(z3.And(CA(kz) <= CA(kz + 1), CD(kz) <= CD(kz + 1), z3.Implies(z3.Not(PA(kz)), CA(kz + 1) == CA(kz))))
+
+    def get_data_receiver(interp_, f, args, kwargs):
+        st = sym.get_state()
+        ch, n = args[0], args[1]
+        st.check("read_data/receiver-capacity-is-len(channel)", n == ch._length, kind="call-pre")
+        if ch.data_type is None:
+            return None
+        return FillRecv(ch._path._path, n)
+
+    def read_raw_data(interp_, f, args, kwargs):
+        """contract of TdmsReader.read_raw_data: K chunks; chunk k holds values [CUTA(k), CUTA(k+1)) of channel a
+        if a is present in it and rows [CUTD(k), CUTD(k+1)) of both scalers of the DAQmx channel d; the totals are
+        the channel lengths"""
+        st = sym.get_state()
+        K = st.fresh_int("K")
+        st.assume(K >= 0)
+        g = st.ghost["eager"]
+        st.add_fact(z3.And(CA(0) == 0, CD(0) == 0, CA(sym.z3int(K)) == sym.z3int(g["na"]),
+                           CD(sym.z3int(K)) == sym.z3int(g["nd"])))
+        RD = interp_.get("base_segment.RawDataChunk")
+        RC = interp_.get("base_segment.RawChannelDataChunk")
+
+        def item(k):
+            facts(st, k)
+            kz = sym.z3int(k)
+            cd = {}
+            if interp_.truth(_lift(PA(kz))):
+                a = Obj(RC)
+                a._f.update(data=Window(_lift(CA(kz)), _lift(CA(kz + 1)), "a"), scaler_data=None)
+                cd[pa] = a
+            d = Obj(RC)
+            d._f.update(data=None, scaler_data={0: Window(_lift(CD(kz)), _lift(CD(kz + 1)), "scaler0"),
+                                                1: Window(_lift(CD(kz)), _lift(CD(kz + 1)), "scaler1")})
+            cd[pd] = d
+            ch = Obj(RD)
+            ch._f.update(channel_data=cd)
+            return ch
+        return SymSeq(K, item, "raw chunks")
+    interp.contracts_at_calls["nptdms.channel_data:get_data_receiver"] = get_data_receiver
+    interp.contracts_at_calls["nptdms.reader:TdmsReader.read_raw_data"] = read_raw_data
+
+    def inv(env, k, st):
+        tf = env.vars["self"]
+        kz = sym.z3int(k)
+        facts(st, k)
+        ra, rd_ = tf._channel_data[pa], tf._channel_data[pd]
+        return [("receiver-of-a-holds-the-values-delivered-so-far", ra.filled == _lift(CA(kz))),
+                ("receiver-of-d-holds-the-rows-delivered-so-far(both scalers)",
+                 And(rd_.sfilled[0] == _lift(CD(kz)), rd_.sfilled[1] == _lift(CD(kz)))),
+                ("typeless-channel-has-no-receiver", tf._channel_data[path_of("g", "typeless")] is None)]
+
+    def havoc_recv(st, env):
+        tf = env.vars["self"]
+        ra, rd_ = tf._channel_data[pa], tf._channel_data[pd]
+        ra.filled = st.fresh_int("fa")
+        rd_.sfilled = {0: st.fresh_int("fd0"), 1: st.fresh_int("fd1")}
+        return tf
+    interp.loop_specs[("nptdms.tdms:TdmsFile._read_data", 2)] = LoopSpec(
+        inv, havoc={"self": havoc_recv, "__locals__": ("chunk", "path", "data", "channel_data", "scaler_id",
+                                                       "scaler_data")}, name="chunks")
+
+
+@harness("read_data_eager_all_chunks", ["tdms.TdmsFile._read_data", "tdms.TdmsChannel._set_raw_data",
+                                        "tdms.TdmsFile.groups", "tdms.TdmsGroup.channels", "tdms.TdmsChannel.path"],
+         ["C01", "C03", "C11"], setup=_setup_read_data_all,
+         note="the eager data read for ANY number of chunks (2 groups / 3 channels: typed, typeless, DAQmx with two "
+              "scalers; the typed channel absent from arbitrary chunks): every receiver is allocated with "
+              "len(channel), receives its channel's chunks in file order (loop invariant) and ends full")
+def _read_data_eager_all(vc):
+    st = vc.st
+    T = Tok("type")
+    OP = vc.interp.get("common.ObjectPath")
+    tf = vc.new("tdms.TdmsFile", _memmap_dir=None, _raw_timestamps=False, _groups=OrderedDict(),
+                _properties=OrderedDict(), _channel_data={}, _tdms_version=0, data_read=False, _reader=None)
+    na, nd = vc.int("n_a", lo=0), vc.int("n_d", lo=0)
+    st.ghost["eager"] = dict(na=na, nd=nd)
+    chans = []
+    for (g, c, typ, n) in [("g", "a", T, na), ("g", "typeless", None, 0), ("h", "d", T, nd)]:
+        chans.append(vc.new("tdms.TdmsChannel", _path=vc.interp.instantiate(OP, [g, c], {}), _length=n,
+                            data_type=typ, _raw_data=None))
+    tf._groups["g"] = vc.new("tdms.TdmsGroup", _path=vc.interp.instantiate(OP, ["g"], {}),
+                             _channels={"a": chans[0], "typeless": chans[1]})
+    tf._groups["h"] = vc.new("tdms.TdmsGroup", _path=vc.interp.instantiate(OP, ["h"], {}),
+                             _channels={"d": chans[2]})
+    rd = vc.new("reader.TdmsReader", _file=SFile("d"))
+    out = vc.call_method(tf, "_read_data", rd)
+    vc.ensure("no-exception", out.kind == "ret")
+    if out.kind != "ret":
+        return
+    ra = tf._channel_data[path_of("g", "a")]
+    rdq = tf._channel_data[path_of("h", "d")]
+    vc.ensure("channel-a-received-all-its-values-in-order", And(ra.filled == na, ra.capacity == na))
+    vc.ensure("daqmx-channel-received-all-rows-of-both-scalers", And(rdq.sfilled[0] == nd, rdq.sfilled[1] == nd,
+                                                                      rdq.capacity == nd))
+    vc.ensure("raw-data-attached-to-each-typed-channel", chans[0]._raw_data is ra and chans[2]._raw_data is rdq)
+    vc.ensure("typeless-channel-has-no-data", tf._channel_data[path_of("g", "typeless")] is None
+              and chans[1]._raw_data is None)
+    vc.ensure("data_read-flag", tf.data_read is True)
